@@ -69,7 +69,7 @@ def cfgs_random(prop, tier, rng):
     for i in range(n):
         D = rng.choice([2, 2, 2, 3]) if prop != 'C06' else rng.choice([1, 2, 2, 3]) if False else rng.choice([2, 2, 3])
         lmin, lmax = rng.choice([(1, 2), (1, 2), (1, 3), (2, 3)])
-        c = dict(D=D, lmin=lmin, lmax=lmax, version=rng.choice([6, 6, 7, 8, 2, 3]) if prop != 'C06' else rng.choice([6, 6, 6, 7, 2]),
+        c = dict(D=D, lmin=lmin, lmax=lmax, version=rng.choice([6, 6, 7, 8, 2, 3, 0, 1]) if prop != 'C06' else rng.choice([6, 6, 6, 7, 2, 0, 1]),
                  rebalancing=rng.random() < (0.7 if prop == 'C06' else 0.4), boundary=rng.random() < 0.7,
                  sfn=rng.choice([1, 1, 0, 3]) if prop == 'C06' else 1, sfd=10, maxintervals=40 if D == 2 else 24,
                  max_hats=(24 if tier == 'quick' else 80) if prop == 'C04' else 6)
